@@ -567,10 +567,13 @@ func (vm *Thread) run() {
 			vm.opPromise()
 		case bytecode.AWAIT:
 			promise := (*Promise)(vm.peek().Pointer())
+			verifPoint(VerifAwaitEnter, promise, nil)
 			promise.m.Lock()
+			verifPoint(VerifAwaitLocked, promise, nil)
 
 			if !promise.IsResolved() {
 				// promise is not resolved, switching contexts
+				verifPoint(VerifAwaitSuspend, promise, nil)
 				vm.state = awaitState
 				return
 			}
@@ -580,6 +583,7 @@ func (vm *Thread) run() {
 			result := promise.result
 			stackTrace := promise.stackTrace
 			promise.m.Unlock()
+			verifPoint(VerifAwaitFast, promise, nil)
 
 			if !err.IsUndefined() {
 				vm.pop()
